@@ -199,6 +199,11 @@ func (s *session[H]) doRequest(
 	}
 
 	h, err := s.processResponses(r)
+	if err == nil && h[0].Height() != req.GetOrigin() {
+		// verification allows the first header to be non-adjacent to the trusted one,
+		// so make sure the peer answered the range it was asked for
+		err = fmt.Errorf("received range starts at %d instead of %d", h[0].Height(), req.GetOrigin())
+	}
 	if err != nil {
 		span.SetStatus(codes.Error, err.Error())
 		logFn := log.Errorw
